@@ -11,28 +11,20 @@ Import ListNotations.
 From MP Require Import Grid Grid_proofs Upstream Upstream_proofs.
 Local Open Scope Z_scope.
 
-(* The srs_code of an upstream request is one of the configured supported_srs codes, provided that the lists of
-   preferred_src_proj spell an SRS the way supported_srs does (without this hypothesis the statement is false of
-   the code: upstream_srs_supported_refuted; known finding). *)
+(* The srs_code of an upstream request is one of the configured supported_srs codes (aliases of the query SRS and of
+   the preferred_src_proj entries are replaced by the code the source lists). *)
 Theorem upstream_srs_supported :
   forall (T : srs -> srs -> bbox -> option bbox) (kn kd : Z) (src : wms_source) (q : query) (r : request),
-    wms_get_map T kn kd src q = Request r -> w_srs src <> [] -> pref_spelled_as_supported src ->
+    wms_get_map T kn kd src q = Request r -> w_srs src <> [] ->
     In (s_code (r_srs r)) (map s_code (w_srs src)).
 Proof. exact request_srs_code_supported. Qed.
 
-(* Without any hypothesis on the configuration: the SRS of the request is equal (as _SRS.__eq__ compares: same
-   PROJ definition) to a configured SRS.  Weaker than the property: the code sent may be an alias. *)
-Theorem upstream_srs_supported_partial :
+(* ... and it is the same SRS (as _SRS.__eq__ compares: same PROJ definition) as a configured one. *)
+Theorem upstream_srs_equal_to_supported :
   forall (T : srs -> srs -> bbox -> option bbox) (kn kd : Z) (src : wms_source) (q : query) (r : request),
     wms_get_map T kn kd src q = Request r -> w_srs src <> [] ->
     exists s, In s (w_srs src) /\ srs_eq (r_srs r) s = true.
 Proof. exact request_srs_equivalent. Qed.
-
-Theorem upstream_srs_supported_refuted :
-  exists T kn kd src q r,
-    wms_get_map T kn kd src q = Request r /\ w_srs src <> [] /\
-    ~ In (s_code (r_srs r)) (map s_code (w_srs src)).
-Proof. exact srs_code_supported_refuted. Qed.
 
 (* The format of an upstream request is the format chosen by _get_map, and that is an entry of supported_formats
    (the first one as fallback) or equal to one as the code compares formats (ImageFormat: same extension). *)
@@ -61,34 +53,36 @@ Theorem upstream_bbox_within_extent_same_srs :
     bbox_contains cb (r_bbox r) = true \/ inside cb (r_bbox r).
 Proof. exact request_bbox_within_extent_same_srs. Qed.
 
-(* The negotiated values are what the URL carries when no forwarded name collides with srs / format / bbox
-   (otherwise the client's value replaces the negotiated one: url_srs_overridden_refuted; known finding). *)
+(* The negotiated values are what the URL carries, whatever forward_req_params names (a forwarded parameter called
+   srs / format / bbox / width / height never replaces the negotiated value). *)
 Theorem url_carries_negotiated_srs :
   forall (T : srs -> srs -> bbox -> option bbox) (kn kd : Z) (src : wms_source) (q : query) (r : request)
          (tmpl : params) (fixed : list (Z * Z)),
-    wms_get_map T kn kd src q = Request r -> fwd_reserved_free src -> ~ In K_SRS (map fst fixed) ->
+    wms_get_map T kn kd src q = Request r -> ~ In K_SRS (map fst fixed) ->
     pget K_SRS (url_params tmpl fixed r) = Some [VStr (s_code (r_srs r))].
 Proof. exact request_url_srs. Qed.
 
 Theorem url_carries_negotiated_format :
   forall (T : srs -> srs -> bbox -> option bbox) (kn kd : Z) (src : wms_source) (q : query) (r : request)
          (tmpl : params) (fixed : list (Z * Z)),
-    wms_get_map T kn kd src q = Request r -> fwd_reserved_free src -> ~ In K_FORMAT (map fst fixed) ->
+    wms_get_map T kn kd src q = Request r -> ~ In K_FORMAT (map fst fixed) ->
     pget K_FORMAT (url_params tmpl fixed r) = Some [VStr (f_mime (r_fmt r))].
 Proof. exact request_url_format. Qed.
 
 Theorem url_carries_negotiated_bbox :
   forall (T : srs -> srs -> bbox -> option bbox) (kn kd : Z) (src : wms_source) (q : query) (r : request)
          (tmpl : params) (fixed : list (Z * Z)),
-    wms_get_map T kn kd src q = Request r -> fwd_reserved_free src -> ~ In K_BBOX (map fst fixed) ->
+    wms_get_map T kn kd src q = Request r -> ~ In K_BBOX (map fst fixed) ->
     pget K_BBOX (url_params tmpl fixed r) = Some [VBox (r_bbox r)].
 Proof. exact request_url_bbox. Qed.
 
-Theorem url_srs_overridden_refuted :
-  exists T kn kd src q r tmpl fixed v,
-    wms_get_map T kn kd src q = Request r /\ w_srs src = [Examples.s3857] /\
-    pget K_SRS (url_params tmpl fixed r) = Some [VStr v] /\ v <> s_code Examples.s3857.
-Proof. exact url_srs_refuted. Qed.
+Theorem url_carries_negotiated_size :
+  forall (T : srs -> srs -> bbox -> option bbox) (kn kd : Z) (src : wms_source) (q : query) (r : request)
+         (tmpl : params) (fixed : list (Z * Z)),
+    wms_get_map T kn kd src q = Request r -> ~ In K_WIDTH (map fst fixed) -> ~ In K_HEIGHT (map fst fixed) ->
+    pget K_WIDTH (url_params tmpl fixed r) = Some [VInt (r_w r)] /\
+    pget K_HEIGHT (url_params tmpl fixed r) = Some [VInt (r_h r)].
+Proof. exact request_url_size. Qed.
 
 (* Only configured dimensions are forwarded: the dimensions merged into the request are query dimensions whose
    lower-cased name is a (lower-cased) forward_req_params entry ... *)
